@@ -49,6 +49,12 @@ func StatusName(s virtual.Status) string {
 		return ESYMLINK
 	case virtual.StatusErrInval:
 		return EINVAL
+	case virtual.StatusErrNXIO:
+		return "ENXIO"
+	case virtual.StatusErrWrongType:
+		return "EWRONGTYPE"
+	case virtual.StatusErrAccess:
+		return "EACCES"
 	}
 	return fmt.Sprintf("STATUS%d", int(s))
 }
